@@ -193,8 +193,38 @@ fn c01_unreal2_string_hostile_instances() {
 }
 
 // -- GameSpy 1: a one-byte reply (every value, NUL and backslash included) --------
-c01!(c01_any1_gs1, 9, gs1, &[], 1);
-c01!(c01_any1_gs1_vars, 9, gs1_vars, &[], 1);
+// (thorough: even one symbolic byte through the GameSpy 1 text splitting exceeds the quick cap)
+c01!(c01_t_any1_gs1, 9, gs1, &[], 1);
+c01!(c01_t_any1_gs1_vars, 9, gs1_vars, &[], 1);
+
+/// GameSpy 1 hostile instances (concrete: see above): a datagram that starts with
+/// NUL (decodes to an empty text although it is not empty), a lone backslash, a
+/// key without value - an error or a value, never a panic.
+macro_rules! c01_gs1_instance {
+    ($name:ident, $bytes:expr) => {
+        #[cfg(kani)]
+        #[kani::proof]
+        #[kani::unwind(12)]
+        #[kani::stub(alloc::fmt::format, stub_format)]
+        #[kani::stub(core::str::from_utf8, stub_from_utf8)]
+        #[kani::stub(core::slice::memchr::memchr, stub_memchr)]
+        fn $name() {
+            let addr = fixed_addr();
+            let b: &[u8] = $bytes;
+            world().push_data(b.to_vec());
+            let out = gs1(&addr, None);
+            let _ = out;
+            world().reset();
+            world().push_data(b.to_vec());
+            let out = gs1_vars(&addr, None);
+            let _ = out;
+        }
+    };
+}
+c01_gs1_instance!(c01_gs1_instance_nul_first, &[0x00, 0x5c, 0x61]);
+c01_gs1_instance!(c01_gs1_instance_nul_only, &[0x00]);
+c01_gs1_instance!(c01_gs1_instance_lone_backslash, &[0x5c]);
+c01_gs1_instance!(c01_gs1_instance_key_without_value, &[0x5c, 0x61]);
 
 /// GameSpy 3 player / team field section with the first-index byte symbolic
 /// (every value, 255 included) and one entry: no panic, no overflow; the result
